@@ -20,6 +20,7 @@ pub struct AbortToken;
 pub struct ProbePanic;
 pub struct ClonePanic;
 pub struct ClosurePanic;
+pub struct DropPanic;
 
 pub struct Core {
     pub turn: usize,
@@ -58,6 +59,9 @@ pub static CASE_LINES: AtomicU64 = AtomicU64::new(0);
 pub const LINE_LIMIT: u64 = 50_000;
 pub static CLONES: AtomicU64 = AtomicU64::new(0);
 pub static CLONEPANIC: AtomicU64 = AtomicU64::new(u64::MAX);
+/// logged destructions of (non-clone) elements so far in this case, and the one that panics
+pub static DROPS: AtomicU64 = AtomicU64::new(0);
+pub static DROPPANIC: AtomicU64 = AtomicU64::new(u64::MAX);
 
 thread_local! {
     static TID: Cell<usize> = const { Cell::new(NO_TID) };
@@ -105,6 +109,11 @@ pub fn runaway() -> ! {
         let _ = f.flush();
     }
     std::process::exit(3);
+}
+
+/// true while the calling thread's lines are recorded
+pub fn logging() -> bool {
+    LOG_ON.load(Ordering::Relaxed) && !silent()
 }
 
 /// Logs one trace line `T<t> <body>` / `own <body>`.
@@ -190,7 +199,7 @@ pub fn finish(t: usize) {
 // ---------------------------------------------------------------------------------------------
 // scheduler side
 
-pub fn begin_case(nthreads: usize, iter_kind: bool, clonepanic: Option<u64>) {
+pub fn begin_case(nthreads: usize, iter_kind: bool, clonepanic: Option<u64>, droppanic: Option<u64>) {
     {
         let mut g = core();
         g.turn = SCHED;
@@ -205,6 +214,8 @@ pub fn begin_case(nthreads: usize, iter_kind: bool, clonepanic: Option<u64>) {
     }
     CLONES.store(0, Ordering::Relaxed);
     CLONEPANIC.store(clonepanic.unwrap_or(u64::MAX), Ordering::Relaxed);
+    DROPS.store(0, Ordering::Relaxed);
+    DROPPANIC.store(droppanic.unwrap_or(u64::MAX), Ordering::Relaxed);
     crate::alloc::reset();
     CASE_LINES.store(0, Ordering::Relaxed);
     ACTIVE.store(true, Ordering::SeqCst);
